@@ -497,7 +497,10 @@ package txmgr
 //@   props C09 C18 C19
 //@   requires s != nil && s.bucketMeta != nil && tx != nil && rec != nil && txInsOK(rec)
 //@   modifies bmapI(B(tx, s.bucketMeta.nsUnminedInputs))
-//@   loop#1 step !bhasI(B(tx, s.bucketMeta.nsUnminedInputs), canonicalOutPoint(&rec.MsgTx.TxIn[iter_].PreviousOutPoint.Hash, rec.MsgTx.TxIn[iter_].PreviousOutPoint.Index)) || old(!bhasI(B(tx, s.bucketMeta.nsUnminedInputs), canonicalOutPoint(&rec.MsgTx.TxIn[iter_].PreviousOutPoint.Hash, rec.MsgTx.TxIn[iter_].PreviousOutPoint.Index)))
+//@   requires miWFI(B(tx, s.bucketMeta.nsUnminedInputs))
+//@   ensures miWFI(B(tx, s.bucketMeta.nsUnminedInputs))
+//@   loop#1 invariant miWFI(B(tx, s.bucketMeta.nsUnminedInputs))
+//@   loop#1 step bsameI(B(tx, s.bucketMeta.nsUnminedInputs)) || !bhasI(B(tx, s.bucketMeta.nsUnminedInputs), canonicalOutPoint(&rec.MsgTx.TxIn[iter_].PreviousOutPoint.Hash, rec.MsgTx.TxIn[iter_].PreviousOutPoint.Index))
 //@   loop#1 step bsameExceptI(B(tx, s.bucketMeta.nsUnminedInputs), canonicalOutPoint(&rec.MsgTx.TxIn[iter_].PreviousOutPoint.Hash, rec.MsgTx.TxIn[iter_].PreviousOutPoint.Index))
 
 // every pending credit of the transaction is deleted (one per output index)
@@ -527,8 +530,8 @@ package txmgr
 //@   requires sameRef(s.bucketMeta, s.utxoStore.bucketMeta)
 //@   requires bhasI(B(tx, s.bucketMeta.nsUnmined), rec.Hash)
 //@   requires miWFI(B(tx, s.bucketMeta.nsUnminedInputs))
-//@   modifies *
+//@   modifies bmapI(B(tx, s.bucketMeta.nsUnmined)), bmapI(B(tx, s.bucketMeta.nsUnminedInputs)), bmapI(B(tx, s.bucketMeta.nsUnminedCredits)), bmapI(B(tx, s.bucketMeta.nsUnminedGameHistory))
 //@   ensures err == nil ==> !bhasI(B(tx, s.bucketMeta.nsUnmined), rec.Hash)
 //@   ensures miWFI(B(tx, s.bucketMeta.nsUnminedInputs))
-//@   loop#1 invariant rec != nil && s != nil && s.bucketMeta != nil && s.utxoStore != nil && s.utxoStore.bucketMeta != nil && sameRef(s.bucketMeta, s.utxoStore.bucketMeta) && txInsOK(rec) && miWFI(B(tx, s.bucketMeta.nsUnminedInputs))
-//@   loop#2 invariant rec != nil && s != nil && s.bucketMeta != nil && s.utxoStore != nil && s.utxoStore.bucketMeta != nil && sameRef(s.bucketMeta, s.utxoStore.bucketMeta) && txInsOK(rec) && miWFI(B(tx, s.bucketMeta.nsUnminedInputs))
+//@   loop#1 invariant miWFI(B(tx, s.bucketMeta.nsUnminedInputs))
+//@   loop#2 invariant miWFI(B(tx, s.bucketMeta.nsUnminedInputs))
